@@ -28,11 +28,11 @@ LEVEL_NOTE = ('Only cube packages fitted at tabulated wavelengths are covered (t
 RULE = ("cases: package configurations; executions: one plot() call per (n selected, display mode, input form), one evaluation per (fit, filter) point compared; non-trivial = distinct "
         "(configuration, n selected, mode, form) with more than one curve or more than one selected fit")
 ASSUMPTIONS = ["results come from cube packages fitted at tabulated wavelengths", "tolerance 2e-3 for the rounded physical constants"]
-REQUIRED_CLASSES = ['law-queried-then-regridded-before-the-fit', 'whole-curve-identity', 'best-fit-exactly-tied', 'invalid-rows-before-selected-models', 'model-names-sharing-their-first-31-characters', 'mode-interp', 'mode-largest', 'mode-largest+smallest', 'mode-all', 'multi-aperture', 'single-aperture', 'mixed-theta', 'form-object', 'form-file', 'five-fits',
+REQUIRED_CLASSES = ['model-names-that-are-prefixes-of-one-another', 'largest-beam-beyond-the-table', 'law-queried-then-regridded-before-the-fit', 'whole-curve-identity', 'best-fit-exactly-tied', 'invalid-rows-before-selected-models', 'model-names-sharing-their-first-31-characters', 'mode-interp', 'mode-largest', 'mode-largest+smallest', 'mode-all', 'multi-aperture', 'single-aperture', 'mixed-theta', 'form-object', 'form-file', 'five-fits',
                     'distance-dependent', 'distance-independent', 'cube-wav-ascending', 'several-sources-one-call', 'apertures-stored-decreasing', 'cube-in-Jy', 'second-package-same-names', 'same-call-twice', 'law-in-other-unit', 'filter-wavelengths-in-mixed-units']
 TIMEOUT = {'quick': 600, 'thorough': 3000}
 
-AXES = {'n_ap': [3, 1], 'sord': ['wav-desc', 'wav-asc'], 'theta': ['mixed', 'uniform'], 'memmap': [True, False], 'avr': [(0.0, 5.0), (2.0, 2.0)], 'ap_order': ['inc', 'dec'], 'funit': ['mJy', 'Jy'], 'wunit': ['micron', 'first-in-Angstrom'], 'law': ['power', 'nonmono@nm']}
+AXES = {'n_ap': [3, 1], 'sord': ['wav-desc', 'wav-asc'], 'theta': ['mixed', 'uniform', 'wide'], 'memmap': [True, False], 'avr': [(0.0, 5.0), (2.0, 2.0)], 'ap_order': ['inc', 'dec'], 'funit': ['mJy', 'Jy'], 'wunit': ['micron', 'first-in-Angstrom'], 'law': ['power', 'nonmono@nm']}
 WAV = np.array([24.0, 8.0, 4.5, 2.2, 1.0])
 BANDS = [0, 2, 4]
 MODES = ['interp', 'largest', 'largest+smallest', 'all']
@@ -44,7 +44,7 @@ def setup(tier, seed):
     # whole-curve identity (every wavelength of the curve, not only the fitted ones) on packages with an exactly tied twin of the
     # best model, invalid cube rows before the selected models, and model names of 33 characters that share their first 31
     for n_ap in (1, 3):
-        for long_names in (False, True):
+        for long_names in (False, True, 'prefix'):
             for invalid in (False, True):
                 for memmap in ((True,) if tier == 'quick' else (True, False)):
                     cfgs.append({'identity': True, 'n_ap': n_ap, 'long': long_names, 'invalid': invalid, 'memmap': memmap})
@@ -71,8 +71,13 @@ def _identity(ctx, case, rec, d):
     n_ap = case['n_ap']
     apdep = n_ap > 1
     rng = np.random.default_rng(seed * 43 + n_ap)
-    nm = (lambda i: 'robitaille17_spubhmi_m000001_i%02d' % i) if case['long'] else (lambda i: 'id_%s' % ('dbeacf'[i] if i < 6 else 'inv%d' % i))
+    nm = (lambda i: 'robitaille17_spubhmi_m000001_i%02d' % i) if case['long'] is True else (lambda i: 'id_%s' % ('dbeacf'[i] if i < 6 else 'inv%d' % i))
     names = [nm(i) for i in range(6)]                       # row 1 is the twin of row 3
+    if case['long'] == 'prefix':
+        # names that are prefixes of one another, the longer one stored first
+        names = ['30001_10', '30001_1', '30001_100', '30001_11', '30001_2', '30001_20']
+        nm = lambda i: '4000%d_1' % i
+        rec.cls('model-names-that-are-prefixes-of-one-another')
     aps = np.array([500.0, 2000.0, 9000.0])[:n_ap]
     val = 10 ** rng.uniform(0, 1, (6, n_ap, 5))
     val = np.cumsum(val, axis=1) * np.linspace(1, 1.3, n_ap)[None, :, None]
@@ -87,7 +92,7 @@ def _identity(ctx, case, rec, d):
         cube_val = np.concatenate([z, val[0:2], z, val[2:]])
         cube_valid = [0, 1, 1, 0, 1, 1, 1, 1]
         rec.cls('invalid-rows-before-selected-models')
-    if case['long']:
+    if case['long'] is True:
         rec.cls('model-names-sharing-their-first-31-characters')
     md = os.path.join(d, 'pkg_id')
     os.makedirs(md)
@@ -215,6 +220,9 @@ def run_case(ctx, case, rec, d):
     pkgwriter.write_cube(md, names, WAV[::order], val[:, aord, ::order] * fsc, unc=val[:, aord, ::order] * 0.01 * fsc, unit=fun,
                          apertures_au=aps[aord] if (apdep or n_ap > 1) else None)
     theta = [1.0, 3.0, 2.0] if case['theta'] == 'mixed' else [1.0, 1.0, 1.0]
+    if case['theta'] == 'wide':
+        theta = [1.0, 12.0, 2.0]          # the largest beam reaches beyond the tabulated apertures (9000 AU) at most trial distances, the others stay inside
+        rec.cls('largest-beam-beyond-the-table')
     if case['theta'] == 'mixed':
         rec.cls('mixed-theta')
     rec.cls('multi-aperture' if n_ap > 1 else 'single-aperture')
